@@ -1,5 +1,9 @@
 import Pun.Lemmas.Grid
 import Pun.Gen.GridGen
+import Mathlib.Tactic.FieldSimp
+import Mathlib.Tactic.Positivity
+import Mathlib.Tactic.NormNum
+import Mathlib.Tactic.Push
 /-!
 # C08 — Dempster–Shafer structures convert to their belief / plausibility p-box
 
@@ -290,5 +294,208 @@ theorem grid_hit {F : ℚ → ℚ} {p s a : ℚ} (h : IsGenInv F p a) (hit : F s
   by_contra hc
   have := h.2 s (not_le.mp hc)
   linarith
+
+/-! ## round trip `to_dss().to_pbox()` -/
+
+/-- a well-formed p-box with `n` steps -/
+structure WF (n : Nat) (P : PB) : Prop where
+  llen : P.left.length = n
+  rlen : P.right.length = n
+  lsorted : P.left.Pairwise (· ≤ ·)
+  rsorted : P.right.Pairwise (· ≤ ·)
+  le : allLE P.left P.right = true
+
+/-- the `i`-th grid level lies in the `i`-th of `n` equal probability bands: `i/n < p_i ≤ (i+1)/n` -/
+def GridStep (g : List ℚ) (n : Nat) : Prop :=
+  g.length = n ∧ ∀ (i : Nat) (p : ℚ), g[i]? = some p → (i : ℚ) / n < p ∧ p ≤ ((i : ℚ) + 1) / n
+
+theorem sum_replicate (k : Nat) (c : ℚ) : (List.replicate k c).sum = k * c := by
+  induction k with
+  | zero => simp
+  | succ k ih => rw [List.replicate_succ, List.sum_cons, ih]; push_cast; ring
+
+theorem zip_replicate (l : List ℚ) (c : ℚ) : l.zip (List.replicate l.length c) = l.map (fun x => (x, c)) := by
+  induction l with
+  | nil => rfl
+  | cons x r ih => simp only [List.length_cons, List.replicate_succ, List.zip_cons_cons, List.map_cons, ih]
+
+theorem massLE_const (l : List ℚ) (c t : ℚ) :
+    massLE (l.map (fun x => (x, c))) t = c * (l.countP (fun y => decide (y ≤ t)) : ℕ) := by
+  induction l with
+  | nil => simp [massLE]
+  | cons x r ih =>
+    simp only [List.map_cons, massLE, ih, List.countP_cons]
+    by_cases h : x ≤ t
+    · simp only [h, if_true, decide_true]; push_cast; ring
+    · simp only [h, if_false, decide_false]; push_cast; ring
+
+theorem count_ge (l : List ℚ) (hs : l.Pairwise (· ≤ ·)) (i : Nat) (a : ℚ) (ha : l[i]? = some a) :
+    i + 1 ≤ l.countP (fun y => decide (y ≤ a)) := by
+  induction l generalizing i with
+  | nil => simp at ha
+  | cons x r ih =>
+    rw [List.pairwise_cons] at hs
+    cases i with
+    | zero =>
+      simp only [List.getElem?_cons_zero, Option.some.injEq] at ha; subst ha
+      simp [List.countP_cons]
+    | succ j =>
+      simp only [List.getElem?_cons_succ] at ha
+      have hx : x ≤ a := hs.1 a (List.mem_of_getElem? ha)
+      have := ih hs.2 j ha
+      simp only [List.countP_cons, hx, decide_true, if_true]
+      omega
+
+theorem count_le (l : List ℚ) (hs : l.Pairwise (· ≤ ·)) (i : Nat) (a t : ℚ) (ha : l[i]? = some a) (ht : t < a) :
+    l.countP (fun y => decide (y ≤ t)) ≤ i := by
+  induction l generalizing i with
+  | nil => simp at ha
+  | cons x r ih =>
+    rw [List.pairwise_cons] at hs
+    cases i with
+    | zero =>
+      simp only [List.getElem?_cons_zero, Option.some.injEq] at ha; subst ha
+      have : (x :: r).countP (fun y => decide (y ≤ t)) = 0 := by
+        rw [List.countP_eq_zero]
+        intro y hy
+        simp only [decide_eq_true_eq, not_le]
+        rcases List.mem_cons.mp hy with rfl | hy
+        · exact ht
+        · exact lt_of_lt_of_le ht (hs.1 y hy)
+      omega
+    | succ j =>
+      simp only [List.getElem?_cons_succ] at ha
+      have := ih hs.2 j ha
+      simp only [List.countP_cons]
+      split <;> omega
+
+/-- in a sorted list of `n` equally weighted values the `i`-th value is the generalised inverse of the
+cumulated mass at any level in `(i/n, (i+1)/n]` -/
+theorem sorted_geninv (l : List ℚ) (n : Nat) (hn : l.length = n) (hs : l.Pairwise (· ≤ ·))
+    (i : Nat) (a p : ℚ) (ha : l[i]? = some a) (h1 : (i : ℚ) / n < p) (h2 : p ≤ ((i : ℚ) + 1) / n) :
+    IsGenInv (massLE (l.zip (equalW n))) p a := by
+  have hnpos : 0 < n := by
+    have := (List.getElem?_eq_some_iff.mp ha).1; omega
+  have hnq : (0 : ℚ) < n := by exact_mod_cast hnpos
+  have hz : l.zip (equalW n) = l.map (fun x => (x, 1 / (n : ℚ))) := by
+    unfold equalW; rw [← hn]; exact zip_replicate l _
+  rw [hz]
+  constructor
+  · rw [massLE_const]
+    have hc : ((i : ℚ) + 1) ≤ (l.countP (fun y => decide (y ≤ a)) : ℕ) := by
+      exact_mod_cast count_ge l hs i a ha
+    have : ((i : ℚ) + 1) / n ≤ 1 / (n : ℚ) * (l.countP (fun y => decide (y ≤ a)) : ℕ) := by
+      rw [div_le_iff₀ hnq]
+      have : 1 / (n : ℚ) * (l.countP (fun y => decide (y ≤ a)) : ℕ) * n = (l.countP (fun y => decide (y ≤ a)) : ℕ) := by
+        field_simp
+      rw [this]; exact hc
+    linarith
+  · intro t ht
+    rw [massLE_const]
+    have hc : ((l.countP (fun y => decide (y ≤ t)) : ℕ) : ℚ) ≤ i := by
+      exact_mod_cast count_le l hs i a t ha ht
+    have : 1 / (n : ℚ) * (l.countP (fun y => decide (y ≤ t)) : ℕ) ≤ (i : ℚ) / n := by
+      rw [le_div_iff₀ hnq]
+      have : 1 / (n : ℚ) * (l.countP (fun y => decide (y ≤ t)) : ℕ) * n = (l.countP (fun y => decide (y ≤ t)) : ℕ) := by
+        field_simp
+      rw [this]; exact hc
+    linarith
+
+theorem validW_equal (l : List ℚ) (n : Nat) (hn : l.length = n) (hpos : 0 < n) : ValidW l (equalW n) := by
+  have hnq : (n : ℚ) ≠ 0 := by exact_mod_cast (Nat.pos_iff_ne_zero.mp hpos)
+  refine ⟨by simp [equalW, hn], by intro h; subst h; simp at hn; omega, ?_, ?_⟩
+  · intro x hx
+    simp only [equalW, List.mem_replicate] at hx
+    rw [hx.2]; positivity
+  · simp only [equalW, sum_replicate]; field_simp
+
+/-- ★ converting a well-formed p-box to a DS structure (its `n` steps as focal intervals with mass `1/n`) and
+back returns the same p-box, for every grid whose `i`-th level lies in `(i/n, (i+1)/n]` -/
+theorem roundtrip_id (g : List ℚ) (n : Nat) (P : PB) (hn : 0 < n) (hP : WF n P) (hg : GridOK g) (hs : GridStep g n) :
+    roundtrip g n P = .ok P := by
+  obtain ⟨P', hP', hl, hr, hspec⟩ := stacking_geninv g P.left P.right (equalW n) (hP.llen.trans hP.rlen.symm)
+    (validW_equal _ n hP.llen hn) hP.le hg
+  simp only [roundtrip, toDss]
+  rw [hP']
+  congr 1
+  have e1 : P'.left = P.left := by
+    apply List.ext_getElem?
+    intro i
+    by_cases hi : i < g.length
+    · obtain ⟨a, b, ha, hb, hga, hgb⟩ := hspec i g[i] (by simp [hi])
+      have hi' : i < P.left.length := by rw [hP.llen, ← hs.1]; exact hi
+      obtain ⟨h1, h2⟩ := hs.2 i g[i] (by simp [hi])
+      have := sorted_geninv P.left n hP.llen hP.lsorted i P.left[i] g[i] (by simp [hi']) h1 h2
+      rw [ha, hga.unique this]; simp [hi']
+    · rw [List.getElem?_eq_none (by omega), List.getElem?_eq_none (by rw [hP.llen, ← hs.1]; omega)]
+  have e2 : P'.right = P.right := by
+    apply List.ext_getElem?
+    intro i
+    by_cases hi : i < g.length
+    · obtain ⟨a, b, ha, hb, hga, hgb⟩ := hspec i g[i] (by simp [hi])
+      have hi' : i < P.right.length := by rw [hP.rlen, ← hs.1]; exact hi
+      obtain ⟨h1, h2⟩ := hs.2 i g[i] (by simp [hi])
+      have := sorted_geninv P.right n hP.rlen hP.rsorted i P.right[i] g[i] (by simp [hi']) h1 h2
+      rw [hb, hgb.unique this]; simp [hi']
+    · rw [List.getElem?_eq_none (by omega), List.getElem?_eq_none (by rw [hP.rlen, ← hs.1]; omega)]
+  cases P; cases P'; simp_all
+
+example : WF 2 ⟨[1, 2], [2, 5]⟩ ∧ GridStep [1/4, 3/4] 2 :=
+  ⟨⟨rfl, rfl, by norm_num, by norm_num, by decide +kernel⟩, rfl, by
+    intro i p hp
+    match i with
+    | 0 => simp at hp; subst hp; norm_num
+    | 1 => simp at hp; subst hp; norm_num
+    | k + 2 => simp at hp⟩
+
+/-! ## the grid of the source (`Params.p_values`, regenerated on every run) satisfies the hypotheses -/
+
+def stepCheck (n : Nat) : List ℚ → Nat → Bool
+  | [], _ => true
+  | p :: r, i => decide ((i : ℚ) / n < p ∧ p ≤ ((i : ℚ) + 1) / n) && stepCheck n r (i + 1)
+
+theorem stepCheck_spec (n : Nat) (g : List ℚ) (k : Nat) (h : stepCheck n g k = true) :
+    ∀ (i : Nat) (p : ℚ), g[i]? = some p → ((k + i : ℕ) : ℚ) / n < p ∧ p ≤ (((k + i : ℕ) : ℚ) + 1) / n := by
+  induction g generalizing k with
+  | nil => intro i p hp; simp at hp
+  | cons x r ih =>
+    simp only [stepCheck, Bool.and_eq_true, decide_eq_true_eq] at h
+    intro i p hp
+    cases i with
+    | zero => simp only [List.getElem?_cons_zero, Option.some.injEq] at hp; subst hp; simpa using h.1
+    | succ j =>
+      simp only [List.getElem?_cons_succ] at hp
+      have := ih (k + 1) h.2 j p hp
+      have e : k + 1 + j = k + (j + 1) := by omega
+      rw [e] at this; exact this
+
+theorem pValues_gridOK : GridOK Gen.pValues := by
+  unfold GridOK; decide +kernel
+
+theorem pValues_gridStep : GridStep Gen.pValues Gen.steps := by
+  refine ⟨by decide +kernel, ?_⟩
+  have h : stepCheck Gen.steps Gen.pValues 0 = true := by decide +kernel
+  intro i p hp
+  have := stepCheck_spec _ _ 0 h i p hp
+  simpa using this
+
+/-- ★ `stacking_geninv` for the grid of the source -/
+theorem stacking_geninv_source (F : List Focal) (hF : ValidDS F) :
+    ∃ P, stackF Gen.pValues F = .ok P ∧ P.left.length = Gen.pValues.length ∧ P.right.length = Gen.pValues.length ∧
+      ∀ (i : Nat) (p : ℚ), Gen.pValues[i]? = some p → ∃ a b, P.left[i]? = some a ∧ P.right[i]? = some b ∧
+        IsGenInv (pl F) p a ∧ IsGenInv (bel F) p b :=
+  stackF_geninv _ F hF pValues_gridOK
+
+/-- ★ `roundtrip_id` for the grid and step count of the source: `Pbox.to_dss().to_pbox()` is the identity -/
+theorem roundtrip_source (P : PB) (hP : WF Gen.steps P) : roundtrip Gen.pValues Gen.steps P = .ok P :=
+  roundtrip_id _ _ P (by decide) hP pValues_gridOK pValues_gridStep
+
+/-- no grid level is within `10⁻⁹` of a multiple of `1/steps` (the fractional part of `p·steps` stays
+`2·10⁻⁷` away from 0 and 1): binary64 rounding of the cumulated masses `k/steps` cannot flip a comparison
+in the round trip -/
+theorem no_near_coincidence :
+    ∀ p ∈ Gen.pValues, (2 : ℚ) / 10000000 < p * Gen.steps - (p * Gen.steps).floor ∧
+      p * Gen.steps - (p * Gen.steps).floor < 1 - 2 / 10000000 := by
+  decide +kernel
 
 end Pun.Props.C08
